@@ -15,6 +15,8 @@ ENGINES = [
      "kind_free_text": "generated event histories executed on the real scheduler.Cell under a virtual clock; reference-model oracles after every cycle; forked probe cycles"},
     {"name": "master-zk", "path": "vf/master", "serves_properties": ["C01", "C03", "C04", "C05", "C06", "C07", "C08", "C09", "C10", "C11"],
      "kind_free_text": "real Master/Loader on ZkBackend on an in-memory ZooKeeper (vf/zkfake.py); events produced with masterapi; fork-based crash cuts and restarts"},
+    {"name": "appmonitor-loop", "path": "vf/checks/c20.py", "serves_properties": ["C20"],
+     "kind_free_text": "real sproc.appmonitor._run_sync on the in-memory ZooKeeper with a scripted time.sleep hook and a recording REST fake"},
     {"name": "api-ldapfake", "path": "vf/api", "serves_properties": ["C19", "C15"],
      "kind_free_text": "real API / admin objects over an in-memory LDAP directory (vf/api/ldapfake.py)"},
 ]
@@ -60,4 +62,8 @@ CHECKS['C19'] = dict(engine='api-ldapfake', category='exploration', design_ref='
                      note="Trusted base: in-memory directory under the real treadmill.admin._ldap.Admin (wire operations only are replaced); the harness mirror of stored reservations and its own unit parser; schema-invalid requests are outside the domain.",
                      text="Sequences of create/update/delete reservation requests are issued to the real API (real schema validation, real admin objects) and every accept/reject decision is compared with an independent sum over the stored reservations, per dimension and per limited trait.",
                      technique="runtime monitoring: reference-model oracle (independent capacity sum) on every API decision of generated request sequences")
+CHECKS['C20'] = dict(engine='appmonitor-loop', category='exploration', design_ref='DESIGN 5 C20',
+                     note="Trusted base: in-memory ZooKeeper fake; restclient.post replaced at the REST boundary (dispatches to masterapi on the same ZooKeeper); virtual clock and time.sleep hook; the independent token bucket is reset when the monitor node's content is rewritten (observed at the node).",
+                     text="The real _run_sync loop (watches + reevaluate) runs tens of evaluations per generated history under an advancing virtual clock with instances dying, reconfigurations, deletions and every handled/unhandled REST failure; each recorded call is checked against missing count, an independent token bucket, exact surplus by policy and suspension.",
+                     technique="runtime monitoring: recorded REST calls of the real monitor loop vs independent token-bucket / surplus reference under a virtual clock")
 NOT_APPLICABLE = {}
